@@ -679,3 +679,141 @@ def split_ifexp_assign(repo, rel: str, func_names: Iterable[str]):
         return repo
     ast.fix_missing_locations(tree)
     return repo.with_module(rel, tree=tree)
+
+
+def _named_functions(tree, func_names):
+    names = set(func_names)
+    return [fn for fn in ast.walk(tree) if isinstance(fn, (ast.FunctionDef, ast.AsyncFunctionDef)) and fn.name in names]
+
+
+def expand_result_variable(repo, rel: str, func_names: Iterable[str]):
+    """C8: single exit with a result variable -> early returns (inside the named functions, in memory only).
+
+    ``r = E`` in *tail position* (last statement of the if/elif/else branches, of a ``try`` body or handler without
+    else/finally, nested, of the statement immediately before the function's final ``return r``) is followed by
+    nothing but that ``return r``; it becomes ``return E``.  If afterwards ``r`` has one remaining definition, at the
+    top level of the body, whose value is a constant or a never re-bound parameter, the final ``return r`` returns
+    that value and the definition is dropped.  Anything else is left alone."""
+    import copy
+
+    if not rel.startswith("tornado/"):
+        rel = "tornado/" + rel
+    tree = copy.deepcopy(repo.module(rel).tree)
+    changed = False
+    for fn in _named_functions(tree, func_names):
+        body = fn.body
+        if len(body) < 2 or not isinstance(body[-1], ast.Return) or not isinstance(body[-1].value, ast.Name):
+            continue
+        r = body[-1].value.id
+        params = {a.arg for a in fn.args.posonlyargs + fn.args.args + fn.args.kwonlyargs} | ({fn.args.vararg.arg} if fn.args.vararg else set()) | ({fn.args.kwarg.arg} if fn.args.kwarg else set())
+        if r in params or any(isinstance(n, (ast.FunctionDef, ast.AsyncFunctionDef, ast.Lambda, ast.Global, ast.Nonlocal)) for n in ast.walk(fn) if n is not fn):
+            continue
+        hit = [False]
+
+        def push(block):
+            if not block:
+                return
+            last = block[-1]
+            if isinstance(last, ast.Assign) and len(last.targets) == 1 and isinstance(last.targets[0], ast.Name) and last.targets[0].id == r:
+                block[-1] = ast.copy_location(ast.Return(value=last.value), last)
+                hit[0] = True
+            elif isinstance(last, ast.If):
+                push(last.body)
+                push(last.orelse)
+            elif isinstance(last, ast.Try) and not last.orelse and not last.finalbody:
+                push(last.body)
+                for h in last.handlers:
+                    push(h.body)
+
+        head = body[:-1]
+        push(head)
+        fn.body = head + [body[-1]]
+        if not hit[0]:
+            continue
+        changed = True
+        defs = [n for n in ast.walk(fn) if isinstance(n, ast.Name) and n.id == r and isinstance(n.ctx, (ast.Store, ast.Del))]
+        loads = [n for n in ast.walk(fn) if isinstance(n, ast.Name) and n.id == r and isinstance(n.ctx, ast.Load)]
+        top = [st for st in fn.body if isinstance(st, ast.Assign) and len(st.targets) == 1 and isinstance(st.targets[0], ast.Name) and st.targets[0].id == r]
+        if len(defs) == 1 and len(top) == 1 and len(loads) == 1 and loads[0] is fn.body[-1].value:
+            v = top[0].value
+            stable_param = isinstance(v, ast.Name) and v.id in params and not any(isinstance(n, ast.Name) and n.id == v.id and isinstance(n.ctx, (ast.Store, ast.Del)) for n in ast.walk(fn))
+            if isinstance(v, ast.Constant) or stable_param:
+                fn.body[-1] = ast.copy_location(ast.Return(value=v), fn.body[-1])
+                fn.body.remove(top[0])
+    if not changed:
+        return repo
+    ast.fix_missing_locations(tree)
+    return repo.with_module(rel, tree=tree)
+
+
+def coalesce_copies(repo, rel: str, func_names: Iterable[str]):
+    """C9: a plain copy ``a = b`` between two local names, outside any loop, where ``b`` is never mentioned after the
+    statement and ``a`` is never mentioned before it (source order; no nested scopes): the two names denote one
+    variable, so one name is used throughout (the parameter's if one is a parameter, else ``a``) and the copy is
+    dropped.  Left-overs of inlined helpers (``arg__i = param`` / ``value = result__i``).  In memory only."""
+    import copy
+
+    if not rel.startswith("tornado/"):
+        rel = "tornado/" + rel
+    tree = copy.deepcopy(repo.module(rel).tree)
+    changed = False
+    for fn in _named_functions(tree, func_names):
+        if any(isinstance(n, (ast.FunctionDef, ast.AsyncFunctionDef, ast.Lambda, ast.Global, ast.Nonlocal, ast.ListComp, ast.SetComp, ast.DictComp, ast.GeneratorExp)) for n in ast.walk(fn) if n is not fn):
+            continue
+        params = {a.arg for a in fn.args.posonlyargs + fn.args.args + fn.args.kwonlyargs} | ({fn.args.vararg.arg} if fn.args.vararg else set()) | ({fn.args.kwarg.arg} if fn.args.kwarg else set())
+        for _round in range(6):
+            in_loop = {id(x) for lp in ast.walk(fn) if isinstance(lp, (ast.For, ast.AsyncFor, ast.While)) for x in ast.walk(lp)}
+            order = {}
+            k = [0]
+
+            def number(node):
+                # evaluation-compatible source order: for an assignment the value comes before the targets
+                if isinstance(node, ast.Assign):
+                    number(node.value)
+                    for t in node.targets:
+                        number(t)
+                    order[id(node)] = k[0]
+                    k[0] += 1
+                    return
+                order[id(node)] = k[0]
+                k[0] += 1
+                for c in ast.iter_child_nodes(node):
+                    number(c)
+
+            number(fn)
+            names = [n for n in ast.walk(fn) if isinstance(n, ast.Name)]
+            done = False
+            for st in [s for s in ast.walk(fn) if isinstance(s, ast.Assign)]:
+                if id(st) in in_loop or len(st.targets) != 1 or not isinstance(st.targets[0], ast.Name) or not isinstance(st.value, ast.Name):
+                    continue
+                a, b = st.targets[0].id, st.value.id
+                if a == b or a in params:
+                    continue
+                pos_b, pos_a = order[id(st.value)], order[id(st.targets[0])]
+                if any(n.id == b and n is not st.value and order[id(n)] > pos_b for n in names):
+                    continue
+                if any(n.id == a and n is not st.targets[0] and order[id(n)] < pos_a for n in names):
+                    continue
+                if b not in params and not any(n.id == b and isinstance(n.ctx, ast.Store) for n in names):
+                    continue  # b is not a local of this function
+                keep, drop = (b, a) if b in params else (a, b)
+                parent = None
+                for p_ in ast.walk(fn):
+                    for fld in ("body", "orelse", "finalbody"):
+                        blk = getattr(p_, fld, None)
+                        if isinstance(blk, list) and any(x is st for x in blk):
+                            parent = blk
+                if parent is None or len(parent) < 2:
+                    continue
+                parent.remove(st)
+                for n in names:
+                    if n.id == drop:
+                        n.id = keep
+                done = changed = True
+                break
+            if not done:
+                break
+    if not changed:
+        return repo
+    ast.fix_missing_locations(tree)
+    return repo.with_module(rel, tree=tree)
